@@ -4,13 +4,22 @@ import json, os
 ROOT = os.path.dirname(os.path.dirname(os.path.abspath(__file__)))
 PY = "/venv/bin/python"
 
-TABLE = {
- "C01": dict(
-    technique="runtime monitors (pre-snapshot/post-check wrappers) on every contraction entry point vs an independent numpy-einsum reference denotation; seeded hostile network/option generators",
-    text="Every call that the workloads (and, in the thorough tier, the repository's own tensor tests) make to tensor_contract, TensorNetwork.contract/contract_tags/contract_cumulative/contract_structured/^/>>/@/to_dense/norm/overlap/trace and TNLinearOperator (matvec, matmat, to_dense, H/T/conj, astype, trace) is compared with the sum-of-products value (x 10**exponent) of the receiver as it was at entry, including label order and partial-contraction networks. Held = held on the executions observed; reach comes from random hypergraph geometry x outputs x optimizers/paths x options.",
-    note="Trusted: numpy.einsum, the relabelling in qmon/ref/value.py, tolerance 1e4*eps*scale. Networks too large to densify (>2^20 reference elements) are counted unreferenced and not judged. Non-numpy backends not exercised.",
-    ref="3/C01"),
-}
+import importlib, sys
+sys.path.insert(0, ROOT)
+
+def table():
+    out = {}
+    for i in range(1, 21):
+        pid = f"C{i:02d}"
+        try:
+            mod = importlib.import_module(f"qmon.props.{pid.lower()}")
+        except ModuleNotFoundError:
+            continue
+        if hasattr(mod, "MANIFEST"):
+            out[pid] = mod.MANIFEST
+    return out
+
+TABLE = table()
 
 def main():
     checks, na = [], []
